@@ -257,8 +257,10 @@ claim("C12",
       "Preconditions (validated take bounds, operator arities as the resolver builds them, id counters below usize::MAX) are assumptions about call sites "
       "that are not themselves verified; RQ/PL supplied as JSON can violate them.")
 
-prop("C08", ["literals", "lex_strings", "json_lits", "concat_ops", "lex_numbers", "fmt_strings"],
-     select={"fmt_strings": lambda n: n.split(".", 1)[1] in ("EQ1", "EQI", "EQD", "escape_all_except_quotes.safety")},
+prop("C08", ["literals", "lex_strings", "json_lits", "concat_ops", "lex_numbers", "fmt_strings", "sql_prec", "static_eval"],
+     select={"static_eval": lambda n: n.split(".", 1)[1] in ("SE1", "SE1f", "static_eval_rq_operator.safety"),
+             "sql_prec": lambda n: n.split(".", 1)[1].startswith("NP4.std_neg.") or n.split(".", 1)[1] == "NP4s.std_neg",
+             "fmt_strings": lambda n: n.split(".", 1)[1] in ("EQ1", "EQI", "EQD", "escape_all_except_quotes.safety")},
      not_covered="float text round trip, date/time/interval literals, f-string lowering, relation literal rows, "
                  "dialects whose string literals treat backslash as an escape (finding F9: not under contract)")
 claim("C08",
@@ -269,7 +271,7 @@ claim("C08",
       "text that is neither (LN1-3); the string lexer (parse_escape_sequence and the body of multi_quoted_string, verbatim): \\n \\r \\t \\b \\f \\\\ \\/ and the "
       "escaped quote denote the documented character and consume one character (ES2a), \\xHH and \\u{H..} with 1-6 digits denote the character with that code "
       "and consume exactly the escape (ES2b-c), an unescaped string opened by n quotes is the text up to the FIRST run of n quotes, verbatim (MQ2, any n, any "
-      "length), every loop terminates and only moves forward (ES1, ES4, MQ1, MQL). JSON values of from_text become literals of the same value without panicking, for every number serde_json can hold (json_lits JL1-4). the operands handed to `||` / CONCAT for an f-string are exactly the flattened operands of the nested std.concat, in order (concat_ops CC1-2). NOT proved: float formatting round trip, backslash-escaping dialects, "
+      "length), every loop terminates and only moves forward (ES1, ES4, MQ1, MQL). JSON values of from_text become literals of the same value without panicking, for every number serde_json can hold (json_lits JL1-4). the operands handed to `||` / CONCAT for an f-string are exactly the flattened operands of the nested std.concat, in order (concat_ops CC1-2). a negative number literal is a unary minus, and the hole of the `neg` template demands more than the strength of a unary minus, so `-n` with n = -5 is `-(-5)` and never the comment `--5` (sql_prec NP4.std_neg rows, literals NE1); a comparison of two literals that is folded at compile time has the value the database would compute (static_eval SE1: same variant only - a string and a raw string are left to the database). NOT proved: float formatting round trip, backslash-escaping dialects, "
       "content of escaped strings beyond one escape.",
       "sqlparser's Display (leaves doubled quotes alone - read in its source, validated by the thorough-tier sweep on SQLite) and sqlformat (white space only, given "
       "its precondition) are trusted; str::parse, str::replace and format! are uninterpreted; date/time/interval arms are not under contract.")
@@ -288,8 +290,9 @@ claim("C07",
       "dialect flags and translate_cte are parameters / externals of the slices; the rest of except(), translate_query and "
       "translate_set_ops_pipeline is dropped.")
 
-prop("C06", ["desugar", "sort_take", "func_env", "cte_define", "split_order", "sql_prec", "take_range", "rel_names", "group_take", "module_names"],
-     select={"split_order": lambda n: n.split(".", 1)[1] in ("RO1", "RO2", "RO3", "reorder.safety"),
+prop("C06", ["desugar", "sort_take", "func_env", "cte_define", "split_order", "sql_prec", "take_range", "rel_names", "group_take", "module_names", "select_shape"],
+     select={"select_shape": lambda n: n.split(".", 1)[1] in ("SS2a", "SS2b", "SS2c", "translate_select_item.safety"),
+             "split_order": lambda n: n.split(".", 1)[1] in ("RO1", "RO2", "RO3", "reorder.safety") or n.split(".", 1)[1].startswith(("SO1.Take.", "SO1.Distinct.", "SO1.DistinctOn.")),
              "take_range": lambda n: n.split(".", 1)[1] in ("TR1", "TR2", "TR2n", "SB1", "SB2", "TRI1", "OM1", "range_of_ranges.safety", "take_slice.safety"),
              "rel_names": lambda n: n.split(".", 1)[1] in ("AN1", "AN2", "AN3", "AN4", "name_one_decl.safety"),
              "sql_prec": lambda n: n.split(".", 1)[1] in ("NP6a", "NP6b", "TO1", "WP2", "try_into_between.safety", "translate_operand.safety")},
@@ -300,6 +303,6 @@ claim("C06",
       "`all` turns the conditions of n consecutive filters into the single right-nested conjunction c1 AND (c2 AND ..) in pipeline order (FC1, FC2), "
       "which is true on a row exactly when every condition is (FC3, inductive lemma); the rewrite of `lo <= x AND x <= hi` into BETWEEN fires only for "
       "exactly that shape with one x and keeps lo / hi in place (NP6a-b, relevant to expression-to-function refactorings); the ORDER BY emitted "
-      "with a LIMIT is the embedded or inherited sort (sort_take, relevant to naming a sorted prefix with let / into). applying a function binds parameter i to argument i and nothing else - env_of_closure, any number of parameters, loop invariant (func_env EC1-3). a compute is moved in front of a take only if it is row-local, so naming the `.. | take n` prefix with let cannot change what a following window or grouped take sees (split_order RO1-3). a let-table that is inlined as a sub-query for one reference stays definable as a CTE for the next one (cte_define CI1-3). consecutive takes merged into one LIMIT/OFFSET select exactly the rows that taking one after the other selects - which is what the let form of the same program executes (take_range TR1, TR2). every CTE gets a name different from the CTEs named before it, so a declaration moved into a module (`staging.t`) cannot shadow a table with the same short name (rel_names AN1-4). NOT proved: let/into, "
+      "with a LIMIT is the embedded or inherited sort (sort_take, relevant to naming a sorted prefix with let / into). applying a function binds parameter i to argument i and nothing else - env_of_closure, any number of parameters, loop invariant (func_env EC1-3). a compute is moved in front of a take only if it is row-local, so naming the `.. | take n` prefix with let cannot change what a following window or grouped take sees (split_order RO1-3). a let-table that is inlined as a sub-query for one reference stays definable as a CTE for the next one (cte_define CI1-3). consecutive takes merged into one LIMIT/OFFSET select exactly the rows that taking one after the other selects - which is what the let form of the same program executes (take_range TR1, TR2). every CTE gets a name different from the CTEs named before it, so a declaration moved into a module (`staging.t`) cannot shadow a table with the same short name (rel_names AN1-4). a take, a DISTINCT or a DISTINCT ON stays in one SELECT only with the transforms that SQL applies after it, so the SELECT boundary that `let` forces after such a prefix is one the inline form has as well (split_order SO1.Take / Distinct / DistinctOn rows; the pair Take-Distinct is a recorded finding); a column without a name of its own leaves a CTE under a generated alias that no column carries, never under the name its expression would infer (select_shape SS2a-c). NOT proved: let/into, "
       "beta-reduction, modules.",
       "expand_expr, the call-node constructors and the meaning of std.and (three-valued AND) are externals / axioms.")
